@@ -18,7 +18,7 @@ import OtelVerif.Model.Span
   After the last op the span is released (`~Span` → `End()`) and the provider flushed.
 Output: `rec=[…] | p0:<kind>:start=<n>:end=<n>:x=[[<span>;…];…] | p1:…`. -/
 namespace Driver
-open Otel Otel.Attr Otel.Span
+open Otel Otel.SAttr Otel.Span
 
 def showTime (t : Option Int) (clock : String) : String := match t with | none => clock | some v => toString v
 
